@@ -9,7 +9,7 @@ CLAIM = ('every packet the tool emits on every simulated connection (handshake, 
          'proceeds: total length = 0 mod 8, padding >= 4, consistent length fields, probe KEXINITs carry exactly the intended lists, GEX requests are the documented tuples, '
          'e is a canonical positive mpint in range and equals g^x mod p for the exponent the randomness seam handed out; payload lengths are swept through all residues mod 8 by '
          'varying the server lists the tool echoes back; conversely well-framed SSH-2 packets with every legal padding length / pad byte and SSH-1 packets under every segmentation '
-         'are accepted and an SSH-1 CRC off by one bit is rejected. NOT decided here: signed/negative mpints, read_mpint2, SSH-1 mpint writers and message re-encoding never reach '
+         'are accepted, also when several packets arrive in one delivery (SSH_MSG_DEBUG packets right before the replies), and an SSH-1 CRC off by one bit is rejected. NOT decided here: signed/negative mpints, read_mpint2, SSH-1 mpint writers and message re-encoding never reach '
          'a wire in any run, so codec-only round-trip clauses of C10 are out of reach of a simulation')
 TRUST = 'trusted base: the independent framing/KEXINIT/mpint decoder in simaudit.wire; the randomness seam that records the DH exponent'
 TECHNIQUE = 'deterministic simulation; wire invariants evaluated at the simulated peer on every packet of every connection'
@@ -65,7 +65,12 @@ def cases(seed, tier):
         if rng.random() < 0.4:
             p['pad_extra'] = rng.randrange(0, 31)
             p['pad_byte'] = rng.choice([0, 0xff, 0x41, rng.randrange(256)])
-        yield {'kind': 'ssh2', 'profile': p, 'net': gen.rand_net(rng), 'knobs': gen.rand_knobs(rng), 'pseed': rng.getrandbits(32)}
+        c = {'kind': 'ssh2', 'profile': p, 'net': gen.rand_net(rng), 'knobs': gen.rand_knobs(rng), 'pseed': rng.getrandbits(32)}
+        r2 = gen.case_rng(seed, ID, i, 'debug')
+        if r2.random() < 0.3:
+            # a peer that sends SSH_MSG_DEBUG packets (1-3, seeded message lengths) right before its key-exchange replies, in the same write
+            c['debug_before'] = [r2.choice([0, 3, 40, 700]) for _ in range(r2.randrange(1, 4))]
+        yield c
 
 
 def sample(case):
@@ -118,6 +123,18 @@ def run_case(case, ctx):
             diff = [(x, y) for x, y in zip(a, b) if x != y][:2]
             out.append(viol('C10 well-framed packets are not accepted alike under segmentation (report differs from the unsegmented run)',
                             'net=%r\nfirst differing lines (unsegmented, segmented): %r' % (case['net'], diff)))
+    if case.get('debug_before'):
+        # several well-framed packets delivered back to back: each must be read as it was sent, so the packets after the
+        # DEBUG ones are still the replies, and the report equals the one of the peer that sends no DEBUG packets
+        dbg = b''.join(wire.frame(bytes([wire.MSG_DEBUG, 0]) + wire.sstr('d' * n) + wire.sstr('')) for n in case['debug_before'])
+        plan_dbg = copy.deepcopy(plan)
+        plan_dbg['world']['servers'][0]['faults'] = [{'conn': '*', 'msg': m, 'kind': 'insert_before', 'hex': dbg.hex()} for m in ('reply', 'group')]
+        r2 = ctx.run(plan_dbg)
+        if not r2.get('harness_error') and (r2['stdout'] != rec['stdout'] or r2['status'] != rec['status']):
+            a, b = rec['stdout'].split('\n'), r2['stdout'].split('\n')
+            diff = [(x, y) for x, y in zip(a, b) if x != y][:2] or [('lines: %d' % len(a), 'lines: %d' % len(b))]
+            out.append(viol('C10 packets that follow other packets in one delivery are not read back as sent (report differs when DEBUG packets precede the replies)',
+                            'debug message lengths=%r net=%r\nfirst differing lines (without, with): %r' % (case['debug_before'], case['net'], diff)))
     srv = rec['servers'][0]
     def lat(x):
         return wire.nb(x).decode('latin-1')
@@ -172,6 +189,10 @@ def shrink(case):
         return
     from .common import shrink_profile_lists
     yield from shrink_profile_lists(case)
+    if case.get('debug_before') and len(case['debug_before']) > 1:
+        c = copy.deepcopy(case)
+        c['debug_before'] = case['debug_before'][:1]
+        yield c
     if case['net'] != {'rtt_us': 200}:
         c = copy.deepcopy(case)
         c['net'] = {'rtt_us': 200, 'seg': {'mode': 'msg'}}
